@@ -44,6 +44,26 @@ def find_calls(t, pred, under_lambda=False, after_try=False, in_try=False, out=N
     return out
 
 
+def _solution_zips(t):
+    """zip(<sequence of variables>, <solution vector>) nodes: the second component is the first element of a solver result
+    triple (a lambda parameter named solution*, or t[0] of the mapped triple)"""
+    out = []
+    for x in T.walk(t):
+        if x[0] == 'zip' and len(x[1]) == 2:
+            b = x[1][1]
+            if (b[0] == 'var' and b[1].startswith('solution')) or (b[0] == 'sub' and b[2] == T.C(0) and b[1][0] == 'var'):
+                if any(y[0] == 'attr' and y[2] == 'variables' for y in T.walk(x[1][0])):
+                    out.append(x)
+    return out
+
+
+def _src_of(x):
+    """the sequence a (possibly mapped) zip component ranges over"""
+    while x[0] == 'map':
+        x = x[2]
+    return x
+
+
 def rules(ctx):
     obs = []
     P = ctx.program
@@ -74,8 +94,8 @@ def rules(ctx):
                       f"objectives `{T.show(objs)[:200]}` are not A.construct(objective, lambda _: 0) of the solver's polyhedron",
                       key="E4:solve:objectives"))
         # result pairing: zip(polyhedron.A.variables, solution)
-        zips = [x for x in T.walk(t) if x[0] == 'zip' and len(x[1]) == 2 and x[1][1][0] == 'var' and x[1][1][1].startswith('solution')]
-        okz = bool(zips) and all(z[1][0] == ('attr', ('attr', poly, 'A'), 'variables') for z in zips)
+        zips = _solution_zips(t)
+        okz = bool(zips) and all(_src_of(z[1][0]) == ('attr', ('attr', poly, 'A'), 'variables') for z in zips)
         obs.append(Ob("E4.solve.pairing", "E4.index-space", where, "ok" if okz else "violation",
                       "solution zipped with polyhedron.A.variables (ASPACE, same polyhedron)" if okz else
                       f"solution is paired with {[T.show(z[1][0])[:100] for z in zips]} instead of the A.variables of the solver's polyhedron",
@@ -101,9 +121,9 @@ def rules(ctx):
     okh = bool(handlers) and all(any(y[0] == 'raise' and y[1] == T.G('puan.ndarray.InfeasibleError') for y in T.walk(h)) for h in handlers)
     obs.append(Ob("MPT.select.handler", "must-pass-through", where, "ok" if okh else "violation",
                   "every handler raises InfeasibleError" if okh else "a handler of select() does not raise InfeasibleError", key="MPT:select:handler"))
-    zips = [x for x in T.walk(t) if x[0] == 'zip' and len(x[1]) == 2 and x[1][1][0] == 'var' and x[1][1][1].startswith('solution')]
+    zips = _solution_zips(t)
     want = ('attr', ('attr', T.V('self'), 'A'), 'variables')
-    okz = bool(zips) and all(z[1][0][0] == 'map' and z[1][0][2] == want and z[1][0][1][2] == ('attr', T.V(z[1][0][1][1][0]), 'id') for z in zips)
+    okz = bool(zips) and all(_src_of(z[1][0]) == want for z in zips)
     obs.append(Ob("E4.select.pairing", "E4.index-space", where, "ok" if okz else "violation",
                   "solution zipped with the ids of self.A.variables" if okz else
                   f"solution is paired with {[T.show(z[1][0])[:120] for z in zips]}", key="E4:select:pairing"))
